@@ -178,6 +178,7 @@ class StabilizerCompiler(CompilerBase):
 
                 if outcome == 1:
                     state.apply_sigmax(q_index(op.target, op.target_type))
+                classical_registers[op.c_register] = outcome
 
             # reset the control qubit
             state.reset_qubit(
